@@ -154,7 +154,10 @@ Section Current.
     | EMul a _ | ERmul _ a | EImul a _ | ERaddSer _ a | EAddSer a _ => inplace_lossless m a
     | EIadd a b | EIsub a b =>
         inplace_lossless m a && inplace_lossless m b &&
-        forallb (fun k => smem k (keys (denote m a))) (keys (denote m b))
+        match m with
+        | InplaceRebind => true
+        | InplaceReindex => forallb (fun k => smem k (keys (denote m a))) (keys (denote m b))
+        end
     end.
 End Current.
 
